@@ -240,7 +240,7 @@ func (r *Runner) setVar(name string, vr expand.Variable) {
 	}
 }
 
-func (r *Runner) setVarWithIndex(prev expand.Variable, name string, index syntax.ArithmExpr, vr expand.Variable) {
+func (r *Runner) setVarWithIndex(prev expand.Variable, name string, index syntax.ArithmExpr, vr expand.Variable, appendElem bool) {
 	if vr.Kind == expand.String && index == nil {
 		// When assigning a string to an array, fall back to the
 		// zero value for the index.
@@ -299,6 +299,16 @@ func (r *Runner) setVarWithIndex(prev expand.Variable, name string, index syntax
 			r.errf("%s: bad array subscript\n", name)
 			r.exit.code = 1
 			return
+		}
+	}
+	if appendElem {
+		// name[k]+=value appends to the current value of that element, if any.
+		if indexes != nil {
+			if pos, ok := slices.BinarySearch(indexes, k); ok {
+				valStr = list[pos] + valStr
+			}
+		} else if k < len(list) {
+			valStr = list[k] + valStr
 		}
 	}
 	list, indexes = internal.SetIndexedElem(list, indexes, k, valStr)
@@ -408,6 +418,12 @@ func (r *Runner) assignVal(name string, prev expand.Variable, as *syntax.Assign,
 			if valType == "-n" {
 				prev.Kind = expand.NameRef
 			}
+			prev.Str = s
+			return name, prev
+		}
+		if as.Index != nil && prev.Kind != expand.Associative {
+			// name[i]+=s: setVarWithIndex appends s to the element at index i.
+			prev.Kind = expand.String
 			prev.Str = s
 			return name, prev
 		}
